@@ -276,13 +276,13 @@ public:
     }
     inline mpz_wrapper operator>>=(unsigned long u)
     {
-        mpz_tdiv_q_2exp(mp, mp, u);
+        mpz_fdiv_q_2exp(mp, mp, u);
         return *this;
     }
     inline mpz_wrapper operator>>(unsigned long u) const
     {
         mpz_wrapper res;
-        mpz_tdiv_q_2exp(res.get_mpz_t(), mp, u);
+        mpz_fdiv_q_2exp(res.get_mpz_t(), mp, u);
         return res;
     }
     inline unsigned long get_ui() const
